@@ -265,6 +265,8 @@ class Func:
         branches, None otherwise (switch successors carry their label)."""
         b = self.blocks[bid]
         res = []
+        if self.abrupt(bid):
+            return res          # throw / [[noreturn]] call: no normal successor
         two = b.cond is not None and len(b.succs) == 2 and b.termKind != "SwitchStmt" \
             and not b.tempDtorBranch
         cc = None
@@ -281,6 +283,16 @@ class Func:
                 unr = True      # discarded arm of an 'if constexpr'
             res.append((s, pol, unr))
         return res
+
+    def abrupt(self, bid):
+        """the block ends in a throw expression or a [[noreturn]] call."""
+        b = self.blocks[bid]
+        if b.noreturn:
+            return True
+        for e in b.elems:
+            if "s" in e and self.stmts[e["s"]]["k"] == "CXXThrowExpr":
+                return True
+        return False
 
     def reachable_blocks(self, include_unreachable_edges=False):
         seen = set()
@@ -307,12 +319,22 @@ class Func:
 
 
 def load_functions(dumps):
-    """dumps: {unit: json} -> list of Func; lambdas linked by parentFunc."""
+    """dumps: {unit: json} -> list of Func; lambdas linked by parentFunc.
+    Function ids are per unit: use (f.unit, f.id) as a key."""
     res = []
     for u, d in dumps.items():
         for f in d["functions"]:
             res.append(Func(f, u))
     return res
+
+
+def children_of(funcs):
+    """(unit, id) -> [lambda Funcs defined inside]."""
+    m = defaultdict(list)
+    for f in funcs:
+        if f.parent is not None:
+            m[(f.unit, f.parent)].append(f)
+    return m
 
 
 def by_qname(funcs):
@@ -369,3 +391,72 @@ def forward(fn, init, elem_fn, edge_fn=None, include_unreachable=False,
                         IN[succ].add(s2)
                         work.append((succ, s2))
     return IN, OUT
+
+
+# ------------------------------------------------- three-valued branch facts
+def eval3(f, sid, facts, atom_fn):
+    """value of a boolean expression under partial facts {atom: bool}."""
+    s = f.strip(sid)
+    n = f.stmts[s]
+    a = atom_fn(f, s)
+    if a is not None:
+        name, neg = a
+        v = facts.get(name)
+        return None if v is None else (v != neg)
+    if n["k"] == "UnaryOperator" and n.get("op") == "!":
+        v = eval3(f, f.kids(s)[0], facts, atom_fn)
+        return None if v is None else (not v)
+    if n["k"] == "BinaryOperator" and n.get("op") in ("&&", "||"):
+        l, r = f.kids(s)[:2]
+        lv, rv = eval3(f, l, facts, atom_fn), eval3(f, r, facts, atom_fn)
+        if n["op"] == "&&":
+            if lv is False or rv is False:
+                return False
+            if lv is True and rv is True:
+                return True
+            return None
+        if lv is True or rv is True:
+            return True
+        if lv is False and rv is False:
+            return False
+        return None
+    if n["k"] == "CXXBoolLiteralExpr":
+        return bool(n["value"])
+    return None
+
+
+def refine(f, sid, value, facts, atom_fn):
+    """facts implied by 'expression sid has the given value' (unit propagation)."""
+    s = f.strip(sid)
+    n = f.stmts[s]
+    a = atom_fn(f, s)
+    facts = dict(facts)
+    if a is not None:
+        name, neg = a
+        facts[name] = (value != neg)
+        return facts
+    if n["k"] == "UnaryOperator" and n.get("op") == "!":
+        return refine(f, f.kids(s)[0], not value, facts, atom_fn)
+    if n["k"] == "BinaryOperator" and n.get("op") in ("&&", "||"):
+        l, r = f.kids(s)[:2]
+        conj = n["op"] == "&&"
+        if value == conj:       # (a&&b)=T or (a||b)=F : both determined
+            facts = refine(f, l, value, facts, atom_fn)
+            return refine(f, r, value, facts, atom_fn)
+        lv, rv = eval3(f, l, facts, atom_fn), eval3(f, r, facts, atom_fn)
+        if lv is not None and lv == conj:
+            return refine(f, r, value, facts, atom_fn)
+        if rv is not None and rv == conj:
+            return refine(f, l, value, facts, atom_fn)
+    return facts
+
+
+def branch(f, b, pol, facts, atom_fn):
+    """facts after taking the edge of polarity pol out of block b, or None if
+    the edge is infeasible under the facts (only atoms listed by atom_fn)."""
+    if pol is None or b.cond is None:
+        return facts
+    v = eval3(f, b.cond, facts, atom_fn)
+    if v is not None and v != pol:
+        return None
+    return refine(f, b.cond, pol, facts, atom_fn)
